@@ -481,12 +481,14 @@ def main():
                 p = bh + rng.uniform(ol, orr)
                 tp = th + rng.uniform(tl, tr)
                 actual = norm(tp - p)
-                if not (lo - 1e-9 <= actual <= hi + 1e-9):
+                # the range holds differences of normalised headings in [-2pi, 2pi]; since fix dc7bbd32 its
+                # consumer (feasibleRHPolygon) compares it with the bounds modulo 2pi, so soundness is modulo 2pi
+                if not any(lo - 1e-9 <= actual + k * 2 * math.pi <= hi + 1e-9 for k in (-1, 0, 1)):
                     bad = dict(base=p, target=tp, actual_relative_heading=actual, range=[lo, hi])
                     break
             c.hist("rh:" + ("unsound" if bad else "sound"))
             if bad:
-                c.violation("rh-unsound", "relativeHeadingRange does not contain the actual (normalised) relative heading",
+                c.violation("rh-unsound", "relativeHeadingRange does not contain the actual relative heading (modulo 2 pi)",
                             dict(args=cs["args"], witness=bad, range_outside_pi=bool(lo < -math.pi - 1e-9 or hi > math.pi + 1e-9),
                                  seam=True))
         else:
